@@ -112,6 +112,15 @@ func (ck *checker) runHistory(hist []tl.Batch, o histOpts) (store db.DB, snaps [
 	viol := func(kind string, upTo int, desc string) {
 		c.Violation(kind+"/"+o.part, fmt.Sprintf("[%s] batch %d: %s", o.class, upTo-1, desc), rc(upTo, desc))
 	}
+	at := 0
+	defer func() {
+		if e := recover(); e != nil {
+			// a panic of the trie in the calling goroutine (panics in the trie's own update
+			// goroutines cannot be recovered and end the driver with exit status 2)
+			viol("panic", at+1, fmt.Sprint("the trie panicked: ", e))
+			ok = false
+		}
+	}()
 	store = tl.NewStore(ck.scratch)
 	t := tl.NewTrie(nil, store)
 	m := tl.Model{}
@@ -124,6 +133,7 @@ func (ck *checker) runHistory(hist []tl.Batch, o histOpts) (store db.DB, snaps [
 		}
 	}
 	for i, b := range hist {
+		at = i
 		if o.freshPerBlock {
 			t = tl.NewTrie(t.Root, store)
 		}
@@ -266,7 +276,7 @@ func parallel(n int, f func(i int)) {
 func (ck *checker) exhaustive() {
 	c := ck.c
 	r := c.Rand("universes4")
-	nU := c.Pick(3, 22)
+	nU := c.Pick(3, 23)
 	us := tl.Universes4(r, nU)
 	type uctx struct {
 		u      *tl.Universe4
@@ -387,7 +397,7 @@ func (ck *checker) random() {
 	c := ck.c
 	var specs []randSpec
 	if c.Quick() {
-		specs = []randSpec{{8, 50, 4, 60, true}, {40, 50, 12, 24, true}, {300, 40, 80, 6, false}, {2000, 50, 400, 2, false}}
+		specs = []randSpec{{8, 50, 4, 48, true}, {40, 50, 12, 16, true}, {300, 40, 80, 4, false}, {2000, 30, 400, 1, false}}
 	} else {
 		specs = []randSpec{{6, 50, 4, 600, true}, {12, 50, 6, 400, true}, {40, 50, 12, 240, true}, {120, 50, 40, 80, false},
 			{300, 50, 80, 48, false}, {1000, 50, 250, 16, false}, {2000, 50, 400, 16, false}}
